@@ -146,6 +146,7 @@ def explore(ctx):
     ctx.notes["lattice"] = {"dims": {k: len(v) for k, v in dims.items()}, "configs": len(cases),
                             "bound": "2 deviations" if ctx.quick else "full product of 5 core dimensions + 2 deviations overall"}
     ctx.run(MOD, "run_case", cases, part="configurations", transitions=edges, chunksize=2)
+    ctx.run_under(MOD, "run_case", cases[:1] + cases[len(cases) // 2:len(cases) // 2 + 2], ("-O",))
 
 
 def selftest():
